@@ -32,6 +32,7 @@ Definition b3 := CB BNoIsoComponents. Definition b4 := CB BNoSelfCycled. Definit
 Definition dflt := map CB default_dag_rules.
 Definition R (ad : adapter) (rf : bool) (rules : list crule) (v : verdict) (cl : list (nat * arg)) : run :=
   (ad, rf, rules, {| ob_verdict := v; ob_calls := cl |}).
+Definition O (v : verdict) (cl : list (nat * arg)) : obs := {| ob_verdict := v; ob_calls := cl |}.
 Notation Acc := Accept (only parsing). Notation Rej := Reject (only parsing).
 Notation RV := RaiseVerification (only parsing). Notation RO := RaiseOther (only parsing).
 Notation I := AdIdentity (only parsing). Notation Dr := AdDirect (only parsing). Notation X := AdNx (only parsing).
@@ -59,9 +60,10 @@ def builtin(i):
 # ----------------------------------------------------------------------------------------
 # graphs
 # ----------------------------------------------------------------------------------------
-def build(par):
-    """arbitrary digraph (cyclic, disconnected, self-loops): par[i] = parent indices of node i"""
-    nodes = [OptNode('n%d' % i) for i in range(len(par))]
+def build(par, names=None):
+    """arbitrary digraph (cyclic, disconnected, self-loops): par[i] = parent indices of node i;
+    names[i] = the node's name (equal names make different graphs share a descriptive_id)"""
+    nodes = [OptNode(names[i] if names else 'n%d' % i) for i in range(len(par))]
     for i, ps in enumerate(par):
         nodes[i].nodes_from = [nodes[p] for p in ps]
     g = OptGraph()
@@ -237,9 +239,10 @@ def count_edges(x):
     return len(x.get_edges())
 
 
-def make_user_rule(idx, native, behaviour, log, graph, form='function'):
+def make_user_rule(idx, native, behaviour, log, cur, form='function'):
+    """cur[0] = the graph being verified (a verifier instance may be used for several graphs)"""
     def body(x):
-        log.append([idx, describe(x, graph)])
+        log.append([idx, describe(x, cur[0])])
         if behaviour[0] == 'const':
             return _emit(behaviour[1], idx)
         if behaviour[0] == 'nested':
@@ -247,7 +250,11 @@ def make_user_rule(idx, native, behaviour, log, graph, form='function'):
             # first adapts its argument back to an optimisation graph
             inner = GraphVerifier([builtin(i) for i in behaviour[1]], raise_on_failure=True)
             return inner(adapter_of('X').adapt(x) if isinstance(x, nx.DiGraph) else x)
-        if count_edges(x) <= behaviour[1]:
+        if behaviour[0] == 'nodes':
+            size = x.number_of_nodes() if isinstance(x, nx.DiGraph) else x.length
+        else:
+            size = count_edges(x)
+        if size <= behaviour[1]:
             return True
         return _emit(behaviour[2], idx)
 
@@ -269,37 +276,56 @@ def make_user_rule(idx, native, behaviour, log, graph, form='function'):
     return presented
 
 
-def observe(graph, ad, raise_flag, rules):
-    """run the real GraphVerifier; returns {'verdict': ..., 'calls': [[idx, arg description]]}"""
-    log, made = [], []
-    if rules == 'DEFAULT':
-        real = vr.DEFAULT_DAG_RULES
-    else:
-        real = []
-        for idx, r in enumerate(rules):
-            if r[0] == 'b':
-                real.append(builtin(r[1]))
-            else:
-                f = make_user_rule(idx, r[1], r[2], log, graph, r[3] if len(r) > 3 else 'function')
-                made.append(f)
-                real.append(f)
-    verifier = GraphVerifier(real, adapter=adapter_of(ad), raise_on_failure=raise_flag)
-    try:
-        res = verifier(graph)
-        verdict = 'Acc' if res is True else 'Rej' if res is False else 'RO'
-        extra = None if isinstance(res, bool) else 'returned %r' % (res,)
-    except VerificationError:
-        verdict, extra = 'RV', None
-    except Exception as ex:
-        verdict, extra = 'RO', type(ex).__name__
-    finally:
+class Session:
+    """ONE GraphVerifier instance (one adapter instance, one list of rule objects) that can be called on
+    several graphs; close() unregisters the native user rules"""
+
+    def __init__(self, ad, raise_flag, rules, fresh_adapter=False):
+        self.log, self.made, self.cur = [], [], [None]
+        if rules == 'DEFAULT':
+            real = vr.DEFAULT_DAG_RULES
+        else:
+            real = []
+            for idx, r in enumerate(rules):
+                if r[0] == 'b':
+                    real.append(builtin(r[1]))
+                else:
+                    f = make_user_rule(idx, r[1], r[2], self.log, self.cur, r[3] if len(r) > 3 else 'function')
+                    self.made.append(f)
+                    real.append(f)
+        adapter = ADAPTERS[ad]() if fresh_adapter else adapter_of(ad)
+        self.verifier = GraphVerifier(real, adapter=adapter, raise_on_failure=raise_flag)
+
+    def call(self, graph):
+        """returns {'verdict': ..., 'calls': [[idx, arg description]]} for this call"""
+        self.cur[0] = graph
+        del self.log[:]
+        try:
+            res = self.verifier(graph)
+            verdict = 'Acc' if res is True else 'Rej' if res is False else 'RO'
+            extra = None if isinstance(res, bool) else 'returned %r' % (res,)
+        except VerificationError:
+            verdict, extra = 'RV', None
+        except Exception as ex:
+            verdict, extra = 'RO', type(ex).__name__
+        o = {'verdict': verdict, 'calls': list(self.log)}
+        if extra:
+            o['extra'] = extra
+        return o
+
+    def close(self):
         reg = AdaptRegistry()
-        for f in made:
+        for f in self.made:
             reg.unregister_native(f)
-    o = {'verdict': verdict, 'calls': log}
-    if extra:
-        o['extra'] = extra
-    return o
+
+
+def observe(graph, ad, raise_flag, rules):
+    """a fresh GraphVerifier called once"""
+    sess = Session(ad, raise_flag, rules)
+    try:
+        return sess.call(graph)
+    finally:
+        sess.close()
 
 
 # ----------------------------------------------------------------------------------------
@@ -326,6 +352,8 @@ def c_behaviour(b):
         return '(UConst %s)' % c_outcome(b[1])
     if b[0] == 'nested':
         return '(UNested [%s])' % ';'.join('B%s' % BUILTIN_CTORS[i] for i in b[1])
+    if b[0] == 'nodes':
+        return '(UNodesLe %d %s)' % (b[1], c_outcome(b[2]))
     return '(UEdgesLe %d %s)' % (b[1], c_outcome(b[2]))
 
 
@@ -382,7 +410,7 @@ def stats_of(par, runs, acc):
             for q in r['rules']:
                 if q[0] == 'u':
                     b = q[2]
-                    shape = b[1] if b[0] == 'const' else 'nested-verifier' if b[0] == 'nested' else 'edges/' + b[2]
+                    shape = b[1] if b[0] == 'const' else 'nested-verifier' if b[0] == 'nested' else b[0] + '/' + b[2]
                     facts.append(('user_rule', '%s %s' % ('native' if q[1] else 'domain', shape)))
         for fact, val in facts:
             d = acc['dist'].setdefault(fact, {})
@@ -466,6 +494,169 @@ def evaluate(ctx, group, items, shard):
     return res
 
 
+# ----------------------------------------------------------------------------------------
+# sequences of graphs on ONE verifier instance
+# ----------------------------------------------------------------------------------------
+SEQ_FN = 'check_seq'
+SEQ_TY = 'seq_case'
+
+
+def split_node(par, names, v, child):
+    """unfold: duplicate node v (same name, same parents) and let `child` use the copy instead of v.
+    When v keeps another child the unfolded graph has the SAME descriptive_id as the original."""
+    par2 = [list(p) for p in par] + [list(par[v])]
+    par2[child] = [len(par) if q == v else q for q in par2[child]]
+    return par2, list(names) + [names[v]]
+
+
+def children_of(par, v):
+    return [c for c, ps in enumerate(par) if v in ps]
+
+
+def random_twins(rng):
+    """a DAG with few distinct names and 1-2 unfoldings of it (descriptive-id twins)"""
+    n = rng.randint(3, 6)
+    order = list(range(n))
+    rng.shuffle(order)
+    par = [[] for _ in range(n)]
+    p = rng.choice([0.35, 0.5, 0.7])
+    for k in range(n):
+        for j in range(k + 1, n):
+            if rng.random() < p:
+                par[order[k]].append(order[j])
+    alphabet = rng.choice([['x'], ['a', 'b'], ['a', 'b', 'c']])
+    names = [rng.choice(alphabet) for _ in range(n)]
+    pool = [(par, names)]
+    cur = (par, names)
+    for _ in range(rng.choice([1, 1, 2])):
+        shared = [v for v in range(len(cur[0])) if len(children_of(cur[0], v)) >= 2]
+        if not shared or len(cur[0]) >= 8:
+            break
+        v = rng.choice(shared)
+        cur = split_node(cur[0], cur[1], v, rng.choice(children_of(cur[0], v)))
+        pool.append(cur)
+    return pool
+
+
+def seq_rules(rng, base_nodes, n_edges):
+    x = rng.random()
+    fail = rng.choice(FAILS)
+    size_rule = ['u', rng.random() < 0.5, ['nodes', base_nodes, fail], rng.choice(FORMS)]
+    if x < 0.3:
+        return 'DEFAULT'
+    if x < 0.55:
+        return [['b', 0], ['b', 2], ['b', 3], ['b', 4], ['b', 5], size_rule]
+    if x < 0.7:
+        return [size_rule, ['b', 1]]
+    if x < 0.85:
+        return rand_subset(rng)
+    return rand_user_config(rng, n_edges)
+
+
+def random_sequence(rng):
+    pool = random_twins(rng)
+    k = rng.randint(2, 4)
+    seq = []
+    for _ in range(k):
+        i = rng.randrange(len(pool))
+        # obj: graphs with the same obj key are the same Python object; otherwise fresh nodes (new uids)
+        seq.append({'graph': pool[i][0], 'names': pool[i][1], 'obj': rng.choice([i, i, 10 + len(seq)])})
+    base = pool[0][0]
+    return {'sequence': seq, 'adapter': rng.choice(['I', 'Dr', 'X']), 'raise_on_failure': rng.random() < 0.4,
+            'rules': seq_rules(rng, len(base), sum(len(q) for q in base))}
+
+
+def crafted_sequences():
+    """descriptive-id twins that differ in validity, both orders, every adapter, flag off and on"""
+    fork = ([[], [0], [0]], ['a', 'r1', 'r2'])                 # a -> r1, a -> r2   (accepted by DEFAULT_DAG_RULES)
+    fork2 = split_node(fork[0], fork[1], 0, 2)                  # a -> r1, a' -> r2  (two components)
+    diamond = ([[], [0], [0], [1, 2]], ['a', 'b', 'c', 'r'])    # a -> b, a -> c, b -> r, c -> r
+    tree = split_node(diamond[0], diamond[1], 0, 2)             # the unfolded tree: 5 nodes
+    chain = ([[1], []], ['x', 'x'])
+    out = []
+    for ad in ('I', 'Dr', 'X'):
+        for rf in (False, True):
+            for a, b, rules in (
+                    (fork, fork2, 'DEFAULT'),
+                    (fork, fork2, [['b', 3]]),
+                    (diamond, tree, [['b', 0], ['b', 2], ['b', 3], ['b', 4], ['b', 5],
+                                     ['u', False, ['nodes', 4, 'RFalse'], 'function']]),
+                    (diamond, tree, [['u', True, ['nodes', 4, 'RValueError'], 'method'], ['b', 1]]),
+                    (chain, chain, 'DEFAULT')):
+                for first, second in ((a, b), (b, a)):
+                    seq = [{'graph': first[0], 'names': first[1], 'obj': 0},
+                           {'graph': second[0], 'names': second[1], 'obj': 1},
+                           {'graph': first[0], 'names': first[1], 'obj': 0},
+                           {'graph': second[0], 'names': second[1], 'obj': 2}]
+                    out.append({'sequence': seq, 'adapter': ad, 'raise_on_failure': rf, 'rules': rules})
+    return out
+
+
+def observe_sequence(case):
+    """one GraphVerifier instance and one adapter instance for the whole sequence"""
+    sess = Session(case['adapter'], case['raise_on_failure'], case['rules'], fresh_adapter=True)
+    objs, obs, ids = {}, [], []
+    try:
+        for item in case['sequence']:
+            g = objs.get(item['obj'])
+            if g is None or structure(g) != item['graph']:
+                g = objs[item['obj']] = build(item['graph'], item['names'])
+            ids.append(g.descriptive_id)
+            obs.append(sess.call(g))
+            if structure(g) != [list(q) for q in item['graph']]:
+                raise RuntimeError('verification changed the graph %r' % (item['graph'],))
+    finally:
+        sess.close()
+    return obs, ids
+
+
+def c_seq(case, obs):
+    return '(%s, %s, %s,\n [%s])' % (
+        case['adapter'], 'T' if case['raise_on_failure'] else 'F', c_rules(case['rules']),
+        ';\n  '.join('(%s, O %s [%s])' % (c_dg(item['graph']), o['verdict'],
+                                         ';'.join('(%d,%s)' % (c[0], c_arg(c[1])) for c in o['calls']))
+                     for item, o in zip(case['sequence'], obs)))
+
+
+def run_sequences(ctx, group, cases):
+    texts, metas = [], []
+    for case in cases:
+        obs, ids = observe_sequence(case)
+        texts.append(c_seq(case, obs))
+        metas.append((case, obs, ids))
+    res = ctx.coq_cases(group, ['Graph.QueriesSpec', 'Graph.Rules'], SEQ_FN, texts, 2, shard=300, case_ty=SEQ_TY,
+                        preamble=PREAMBLE)
+    for (case, obs, ids), (ag, ho) in zip(metas, res):
+        verdicts = [o['verdict'] for o in obs]
+        twins = any(ids[i] == ids[j] and case['sequence'][i]['graph'] != case['sequence'][j]['graph']
+                    for i in range(len(ids)) for j in range(i))
+        differ = any(ids[i] == ids[j] and verdicts[i] != verdicts[j] for i in range(len(ids)) for j in range(i))
+        skey = repr((case['sequence'], case['adapter'], case['raise_on_failure'], case['rules']))
+        for i, o in enumerate(obs):
+            ctx.count(group, key=(skey, i), nontrivial=twins, position=i, verdict=o['verdict'], adapter=case['adapter'],
+                      sequence_has_same_id_twins=twins, twins_with_different_verdicts=differ)
+        full = dict(case)
+        full['observed'] = obs
+        if not ho:
+            ctx.violate(group, full, 'a call on a reused verifier instance contradicts the structural conditions of the '
+                                     'configured rules for that graph (verdicts: %s)' % verdicts)
+        if not ag:
+            ctx.disagree(group, full, 'model (stateless verifier) and implementation differ on a reused instance')
+    return metas
+
+
+def sequence_canary(ctx):
+    # the duplicated-ancestor twin "accepted" after the valid fork on the same instance: must be flagged
+    case = crafted_sequences()[0]
+    obs, _ = observe_sequence(case)
+    obs[1] = {'verdict': 'Acc', 'calls': []}
+    ctx.canaries += 1
+    res = ctx.coq_cases('canary', ['Graph.QueriesSpec', 'Graph.Rules'], SEQ_FN, [c_seq(case, obs)], 2, case_ty=SEQ_TY,
+                        preamble=PREAMBLE)
+    if res[0] == (False, False):
+        ctx.canaries_caught += 1
+
+
 def canary(ctx):
     # a self-loop "accepted" by has_no_cycle: Coq must flag both agree and holds_b
     text = c_case([[0]], ['R I F [b2] Acc []'])
@@ -487,7 +678,11 @@ def run(ctx):
                 'user rules (constant True/False/None/ValueError/other exception, or an edge-count predicate; native '
                 'and domain-level); thorough adds all 65,536 digraphs on 4 nodes; structured random graphs on 4-7 '
                 'nodes (digraphs, DAGs, trees, DAG+defect, several components); distinct = distinct (graph, adapter, '
-                'raise flag, rule list); non-trivial = graph with >= 2 nodes and a non-empty rule list')
+                'raise flag, rule list); non-trivial = graph with >= 2 nodes and a non-empty rule list.  Group reused-instance: '
+                'ONE GraphVerifier instance (one adapter instance) called on 2-4 graphs in order: crafted and random '
+                'descriptive-id twins (a DAG and its unfoldings, equal node names) that differ in validity, in both orders, '
+                'same structure with new uids, the same object twice; every call must equal the fresh-verifier verdict; '
+                'non-trivial = the sequence contains two different graphs with the same descriptive_id')
     ctx.trusted_extra = [
         'NetworkX: DiGraph / Graph adjacency and isolates are modelled by their documented meaning (degree 0), the '
         'breadth-first search of is_connected by a hand-copied literal model (Graph/RulesBfs.v); both are tied to the '
@@ -517,6 +712,13 @@ def run(ctx):
     ctx.set_exhaustive('exhaustive<=3', True)
     evaluate(ctx, 'exhaustive<=3', items, shard=40)
     canary(ctx)
+    # ---- one verifier instance used for several graphs (descriptive-id twins, same structure / new uids)
+    seqs = crafted_sequences() + [random_sequence(ctx.rng) for _ in range(ctx.budget(1200, 8000))]
+    metas = run_sequences(ctx, 'reused-instance', seqs)
+    ctx.set_exhaustive('reused-instance', False)
+    ctx.sample({'sequence': metas[0][0]['sequence'], 'adapter': metas[0][0]['adapter'], 'rules': metas[0][0]['rules'],
+                'observed': metas[0][1]})
+    sequence_canary(ctx)
     # ---- structured random graphs on 4..7 nodes
     items = []
     acc = new_acc()
@@ -572,6 +774,11 @@ def replay(ctx, payload):
         v = payload.get('violation') or payload.get('first_disagreement') or payload
         case = v.get('case') if isinstance(v, dict) else None
         todo = [case] if case and 'rules' in case else []
+    seq_todo = [c for c in todo if c and 'sequence' in c]
+    todo = [c for c in todo if c and 'sequence' not in c]
+    if seq_todo:
+        run_sequences(ctx, 'replay-sequence', [{k: c[k] for k in ('sequence', 'adapter', 'raise_on_failure', 'rules')}
+                                               for c in seq_todo])
     texts, done = [], []
     for case in todo:
         par = case['graph']
